@@ -1048,7 +1048,7 @@ func (c *Ctx) ZeroOfSym(t *geval.SymType) vc.Val {
 			return vc.Val{T: c.E.Decls.Const("fltlit!0", smt.V)}
 		}
 	}
-	nilable := c.In.Path.Preds["o-fork.Nilable("+t.R().Desc+")"] == geval.Yes
+	nilable := c.In.Path.Preds["o-fork.Nilable("+t.R().Desc+")"] == geval.Yes || impliedNilable(f)
 	if f != nil {
 		switch f.Kind {
 		case geval.KPointer, geval.KSlice, geval.KMap, geval.KChan, geval.KSignature, geval.KInterface:
